@@ -46,14 +46,17 @@ impl<R: AsyncRead + Unpin> AsyncRead for BudgetReader<R> {
 struct RecordingWriter {
     out: Arc<Mutex<Vec<u8>>>,
     fail: Arc<AtomicBool>,
+    /// at most this many bytes are accepted per poll_write (0 = no limit): short writes
+    wmax: usize,
 }
 impl AsyncWrite for RecordingWriter {
     fn poll_write(self: Pin<&mut Self>, _cx: &mut Context<'_>, buf: &[u8]) -> Poll<std::io::Result<usize>> {
         if self.fail.load(SeqCst) {
             return Poll::Ready(Err(std::io::Error::new(std::io::ErrorKind::BrokenPipe, "client gone")));
         }
-        self.out.lock().unwrap().extend_from_slice(buf);
-        Poll::Ready(Ok(buf.len()))
+        let n = if self.wmax == 0 { buf.len() } else { buf.len().min(self.wmax) };
+        self.out.lock().unwrap().extend_from_slice(&buf[..n]);
+        Poll::Ready(Ok(n))
     }
     fn poll_flush(self: Pin<&mut Self>, _cx: &mut Context<'_>) -> Poll<std::io::Result<()>> {
         Poll::Ready(Ok(()))
@@ -99,7 +102,7 @@ struct Stream {
     seen: usize,
 }
 impl Stream {
-    fn new(response: Response) -> Self {
+    fn new(response: Response, wmax: usize) -> Self {
         let response: *mut Response = Box::into_raw(Box::new(response));
         // the reader borrows the Response; it is released in `finish` after the future is dropped
         let r: &'static Response = unsafe { &*response };
@@ -112,7 +115,7 @@ impl Stream {
         let budget = Arc::new(AtomicUsize::new(0));
         let out = Arc::new(Mutex::new(Vec::new()));
         let fail = Arc::new(AtomicBool::new(false));
-        let fut = copy_chunked_async(BudgetReader { inner: reader, budget: budget.clone() }, RecordingWriter { out: out.clone(), fail: fail.clone() });
+        let fut = copy_chunked_async(BudgetReader { inner: reader, budget: budget.clone() }, RecordingWriter { out: out.clone(), fail: fail.clone(), wmax });
         Stream { response, fut: Some(Box::pin(fut)), budget, out, fail, state: 'A', seen: 0 }
     }
     /// one poll; at most `reads` reads of the EventReceiver; true if something happened
@@ -159,7 +162,12 @@ fn flags(s: &[Option<EventSender>]) -> String {
 
 fn sse(toks: &[&str]) -> String {
     let (sender, response) = Response::event_stream();
-    let mut st = Stream::new(response);
+    // optional first token w<k>: the writer accepts at most k bytes per poll_write
+    let (wmax, toks) = match toks.first() {
+        Some(t) if t.starts_with('w') => (t[1..].parse::<usize>().unwrap(), &toks[1..]),
+        _ => (0, toks),
+    };
+    let mut st = Stream::new(response, wmax);
     let mut senders: Vec<Option<EventSender>> = vec![Some(sender)];
     let mut out: Vec<String> = Vec::new();
     for t in toks {
@@ -197,7 +205,9 @@ fn sse(toks: &[&str]) -> String {
                 }
             }
             'W' => {
-                st.poll(1);
+                // W<k>: one scheduling of the writer task in which up to k events are ready to be read
+                let k: usize = if t.len() > 1 { t[1..].parse().unwrap() } else { 1 };
+                st.poll(k);
             }
             'G' => st.fail.store(true, SeqCst),
             _ => panic!("bad step {t}"),
